@@ -276,6 +276,8 @@ type Association struct {
 	myNextRSN        uint32
 	reconfigs        map[uint32]*chunkReconfig
 	reconfigRequests map[uint32]*paramOutgoingResetRequest
+	// request sequence numbers of peer reset requests that were already performed
+	reconfigRequestsDone map[uint32]struct{}
 
 	// Non-RFC internal data
 	sourcePort              uint16
@@ -3657,6 +3659,17 @@ func (a *Association) handleReconfigParam(raw param) (*packet, error) {
 			// https://chromium.googlesource.com/external/webrtc/+/refs/heads/main/net/dcsctp/socket/stream_reset_handler.cc#271
 			return nil, fmt.Errorf("%w: %d", ErrTooManyReconfigRequests, len(a.reconfigRequests))
 		}
+		if _, done := a.reconfigRequestsDone[par.reconfigRequestSequenceNumber]; done {
+			// Retransmission of a request we already performed (our response was lost).
+			// RFC 6525 sec 5.2.1: answer again, but do not reset the streams a second
+			// time: the identifiers may have been re-opened in the meantime.
+			return a.createPacket([]chunk{&chunkReconfig{
+				paramA: &paramReconfigResponse{
+					reconfigResponseSequenceNumber: par.reconfigRequestSequenceNumber,
+					result:                         reconfigResultSuccessNOP,
+				},
+			}}), nil
+		}
 		a.reconfigRequests[par.reconfigRequestSequenceNumber] = par
 		resp := a.resetStreamsIfAny(par)
 		if resp != nil {
@@ -3729,6 +3742,7 @@ func (a *Association) resetStreamsIfAny(resetRequest *paramOutgoingResetRequest)
 			delete(a.streams, s.streamIdentifier)
 		}
 		delete(a.reconfigRequests, resetRequest.reconfigRequestSequenceNumber)
+		a.rememberPerformedResetRequest(resetRequest.reconfigRequestSequenceNumber)
 	} else {
 		a.log.Debugf("[%s] resetStream(): senderLastTSN=%d > peerLastTSN=%d",
 			a.name, resetRequest.senderLastTSN, a.peerLastTSN())
@@ -3741,6 +3755,24 @@ func (a *Association) resetStreamsIfAny(resetRequest *paramOutgoingResetRequest)
 			result:                         result,
 		},
 	}})
+}
+
+// rememberPerformedResetRequest records a performed peer reset request so that its
+// retransmissions can be recognised. Only a bounded window of recent numbers is kept.
+// The caller should hold the lock.
+func (a *Association) rememberPerformedResetRequest(rsn uint32) {
+	const keep = 128
+	if a.reconfigRequestsDone == nil {
+		a.reconfigRequestsDone = map[uint32]struct{}{}
+	}
+	a.reconfigRequestsDone[rsn] = struct{}{}
+	if len(a.reconfigRequestsDone) > 2*keep {
+		for old := range a.reconfigRequestsDone {
+			if sna32LT(old, rsn-keep) {
+				delete(a.reconfigRequestsDone, old)
+			}
+		}
+	}
 }
 
 // Move the chunk peeked with a.pendingQueue.peek() to the inflightQueue.
